@@ -131,6 +131,9 @@ def make_session(rng, g, desc, tsdump=None):
     labels = list(range(g.sb.n_fs)) if origin == "api" else []
     slots = [{"op": "fs.slots", "fs": l} for l in labels]
     marks = {}
+    # one serialisation before the first query (queries must not leave anything behind that a later serialisation shows)
+    ops.append({"op": "raw.xmi", "h": h, "pretty": False, "sink": "none"})
+    ops.append({"op": "raw.json", "h": h, "mode": "none", "pretty": False, "ascii": False, "sink": "none"})
     marks["A"] = (len(ops), len(ops) + len(obs) + len(slots))
     ops += obs + slots
     s1 = ser_ops(rng, h, g.ts) + ts_ops
